@@ -94,3 +94,32 @@ def run(ctx):
         wp = call_sites_with(ctx, w, ["*BlockRanges::insert_relaxed"], ["self.will_be_pruned"])
         ok = bool(rq) and bool(wp) and all(all(w.dominates(x, a) for x in rq + wp) for a in acc)
         ctx.check(ok, "C35.daser.bookkeeping", w.path, "granting removes the height from the queue and records it in will_be_pruned", key="C35.daser.bookkeeping")
+
+    u = ctx.anchor(P + "Worker::<S, B>::update_cached_data")
+    if u:
+        from engine.mir import norm_proj
+        calls = call_sites_with(ctx, u, [P + "find_height_after_window"])
+        ctx.check(len(calls) == 2, "C35.cache.searches", u.path, "one window search per window (sampling, pruning)", key="C35.cache.searches")
+        seen = set()
+        for b in calls:
+            e = call_expr(u, b)
+            if len(e[3]) < 4:
+                continue
+            from engine.mir import direct_arg_leaves, walk_direct
+            cut, prev = direct_arg_leaves(e[3][2]), direct_arg_leaves(e[3][3])
+            for name, field, other in (("sampling_cutoff", "self.cache.after_sampling_window", "self.cache.after_pruning_window"), ("pruning_cutoff", "self.cache.after_pruning_window", "self.cache.after_sampling_window")):
+                if has_leaf(cut, name):
+                    seen.add(name)
+                    ctx.check(has_leaf(prev, field) and not has_leaf(prev, other), "C35.cache.hint", u.path, "the search for %s starts from its own cached answer (%s)" % (name, field.split(".")[-1]), site=u.loc(b), key="C35.cache.hint|" + name)
+                    # its result is what gets stored into that cache field
+                    okw = False
+                    for blk in sorted(u.reachable_from([0])):
+                        for i, st in enumerate(u.stmts(blk)):
+                            pr = norm_proj(st["d"].get("p"))
+                            if pr and pr[-1] == field.split(".")[-1]:
+                                rv = u.expr_rvalue(st["r"], (), blk, 0)
+                                from engine.rules import value_source_calls
+                                srcs = [n for n in value_source_calls(rv) if n[1] == P + "find_height_after_window"]
+                                okw = bool(srcs) and all(n[4] == b for n in srcs)
+                    ctx.check(okw, "C35.cache.store", u.path, "%s is updated from the search made with %s" % (field.split(".")[-1], name), key="C35.cache.store|" + name)
+        ctx.check(seen == {"sampling_cutoff", "pruning_cutoff"}, "C35.cache.both", u.path, "both cutoffs are searched", key="C35.cache.both")
